@@ -535,6 +535,32 @@ def iso_check(seed, tier, wd):
                                     for ok, o in fr if not (ok and o.get("method") == "log")]})
         finally:
             pl.close()
+    # payment A is an incomplete set of many parts waiting for its MPP timeout (every one of its hook calls is
+    # unanswered); payment B must still be settled at once
+    for runno, nA in enumerate((4, 6, 9), len(recs) + 1):
+        pl = Plugin(options={OPT[k]: v for k, v in dict(DEFAULTS, mpp=6).items()}, height=1000)
+        pl.node.node_id = T["local"]
+        try:
+            preB = T["preimages"][2]
+            pl.node.pay_mode = "complete:" + preB
+            if pl.handshake() != "ok":
+                raise run.ToolError("real binary did not start for the isolation scenario")
+            A = T["A"]; need = A + A * 5000 // 10**6
+            share = need // (nA + 1)
+            for k in range(nA):
+                pl.send(patched(T["ok"], "A%d" % k, k + 1, share, need, 1000 + 34 + 1008 + 500, 70000))
+            time.sleep(0.4)
+            pl.send(patched(T["other"], "B1", 50, need, need, 1000 + 34 + 1008 + 500, 70000))
+            fr = pl.read_frames(lambda f: any(ok and o.get("id") == "B1" for ok, o in f), 3.0)
+            fr = [(ok, o) for ok, o in fr if not (ok and isinstance(o.get("id"), str) and o.get("id", "").startswith("A"))]
+            recs.append({"ev": "e2e", "run": runno, "sent": ['"B1"'], "leftover": pl.leftover(), "a_parts": nA,
+                         "expect": [{"id": '"B1"', "result": "resolve"}],
+                         "frames": [{"json": ok, "id": json.dumps(o.get("id")) if ok and "id" in o else "none",
+                                     "kind": ("result" if ok and "result" in o else "error" if ok and "error" in o else "notification" if ok and "method" in o else "garbage"),
+                                     "result": (o.get("result", {}).get("result", "") if ok and isinstance(o.get("result"), dict) else "")}
+                                    for ok, o in fr if not (ok and o.get("method") == "log")]})
+        finally:
+            pl.close()
     tf = wd + "/e2e_iso.ndjson"
     with open(tf, "w") as f:
         for l in recs:
